@@ -254,6 +254,12 @@ func checkC15(c C15Case, st *stats.Collector) error {
 			}
 		}
 	}
+	// 3. the source's Seek fails (once, or from then on) at every Seek call of a history of calls on one Reader
+	n3, err := checkSeekFaults(file, classes)
+	if err != nil {
+		return err
+	}
+	evals += n3
 	for cl, n := range classes {
 		st.Class(cl, n)
 	}
@@ -264,6 +270,157 @@ func checkC15(c C15Case, st *stats.Collector) error {
 		st.Sample(map[string]any{"W": w.Trunc(10), "K": k, "Sizes": c.Sizes, "file_len": len(file), "faulted_reads": evals})
 	}
 	return nil
+}
+
+// ---- Seek faults
+
+type seekOp struct {
+	name string
+	info bool
+	opts []mcap.ReadOpt
+}
+
+type seekSession struct {
+	name string
+	ops  []seekOp
+}
+
+func seekSessions() []seekSession {
+	info := seekOp{name: "Info", info: true}
+	def := seekOp{name: "Messages()"}
+	seq := seekOp{name: "Messages(UsingIndex(false))", opts: []mcap.ReadOpt{mcap.UsingIndex(false)}}
+	lt := seekOp{name: "Messages(LogTimeOrder)", opts: []mcap.ReadOpt{mcap.InOrder(mcap.LogTimeOrder)}}
+	rev := seekOp{name: "Messages(ReverseLogTimeOrder)", opts: []mcap.ReadOpt{mcap.InOrder(mcap.ReverseLogTimeOrder)}}
+	return []seekSession{
+		{"Info, Messages()", []seekOp{info, def}},
+		{"Messages(), Messages()", []seekOp{def, def}},
+		{"Messages(UsingIndex(false)) twice", []seekOp{seq, seq}},
+		{"Info, Messages(UsingIndex(false))", []seekOp{info, seq}},
+		{"log-time, reverse", []seekOp{lt, rev}},
+		{"Messages(), Info, Messages(UsingIndex(false))", []seekOp{def, info, seq}},
+	}
+}
+
+// runSeekSession performs the calls on one Reader over src; seeksAtOpen is the source's Seek count when NewReader
+// returned.
+func runSeekSession(src *faultio.SeekSource, ops []seekOp, limit int) (res []outcome, seeksAtOpen int, panic_ string) {
+	defer func() {
+		if x := recover(); x != nil {
+			panic_ = fmt.Sprint(x)
+		}
+	}()
+	rd, err := mcap.NewReader(src)
+	seeksAtOpen = src.Seeks
+	if err != nil {
+		return []outcome{{err: err}}, seeksAtOpen, ""
+	}
+	defer rd.Close()
+	for _, op := range ops {
+		if op.info {
+			info, err := rd.Info()
+			if err != nil {
+				res = append(res, outcome{err: err})
+				continue
+			}
+			res = append(res, outcome{err: io.EOF, extra: wl.Hash(fmt.Sprintf("%+v|%d|%d|%d", info.Statistics, len(info.Channels), len(info.Schemas), len(info.ChunkIndexes)))})
+			continue
+		}
+		it, err := rd.Messages(op.opts...)
+		if err != nil {
+			res = append(res, outcome{err: err})
+			continue
+		}
+		o := outcome{}
+		for len(o.sigs) <= limit {
+			sc, ch, m, err := it.NextInto(nil)
+			if err != nil {
+				o.err = err
+				break
+			}
+			tr := mc.Triple{S: mc.FromSchema(sc), C: mc.FromChannel(ch), M: mc.FromMessage(m)}
+			o.sigs = append(o.sigs, mc.TripleSig(&tr))
+		}
+		res = append(res, o)
+	}
+	return res, seeksAtOpen, ""
+}
+
+func checkSeekFaults(file []byte, classes map[string]int64) (int, error) {
+	evals := 0
+	for _, ss := range seekSessions() {
+		clean := &faultio.SeekSource{Source: faultio.Source{Data: file, FailAt: -1}}
+		base, _, pn := runSeekSession(clean, ss.ops, 1<<20)
+		if pn != "" {
+			return evals, pk.Failf("panic", "calls [%s] on one Reader over the intact file: %s", ss.name, pn)
+		}
+		if len(base) != len(ss.ops) {
+			return evals, pk.Failf("open", "NewReader over the intact file: %v", base[0].err)
+		}
+		longest := 0
+		for _, b := range base {
+			if len(b.sigs) > longest {
+				longest = len(b.sigs)
+			}
+		}
+		for k := 1; k <= clean.Seeks; k++ {
+			for _, sticky := range []bool{false, true} {
+				src := &faultio.SeekSource{Source: faultio.Source{Data: file, FailAt: -1}, SeekFail: k, SeekSticky: sticky}
+				got, atOpen, pn := runSeekSession(src, ss.ops, longest+4)
+				evals++
+				label := fmt.Sprintf("calls [%s] on one Reader, the source's Seek call #%d of %d fails (from then on: %v)", ss.name, k, clean.Seeks, sticky)
+				if pn != "" {
+					return evals, pk.Failf("panic", "%s: %s", label, pn)
+				}
+				if !src.SeekFired {
+					continue
+				}
+				// a source whose Seek fails while it is opened is a stream to the Reader: one pass over it, so
+				// only the calls up to the first completed sequence are judged for completeness
+				streamed := k <= atOpen
+				switch {
+				case streamed:
+					classes["seek-fault-at-open"]++
+				default:
+					classes["seek-fault-in-call"]++
+				}
+				passed := false
+				for i := range got {
+					if i >= len(base) || !base[i].clean() {
+						break
+					}
+					g, b := &got[i], &base[i]
+					opLabel := fmt.Sprintf("%s: call #%d (%s)", label, i+1, ss.ops[i].name)
+					if g.err == nil {
+						return evals, pk.Failf("extra", "%s: more than %d items, the fault-free call returns %d", opLabel, len(g.sigs)-1, len(b.sigs))
+					}
+					if len(g.sigs) > len(b.sigs) {
+						return evals, pk.Failf("extra", "%s: %d items, the fault-free call returns %d", opLabel, len(g.sigs), len(b.sigs))
+					}
+					if !ss.ops[i].info {
+						for j := range g.sigs {
+							if g.sigs[j] != b.sigs[j] {
+								return evals, pk.Failf("altered", "%s: item #%d differs from the fault-free call", opLabel, j)
+							}
+						}
+					}
+					if !g.clean() || (streamed && passed) {
+						continue
+					}
+					if ss.ops[i].info {
+						if g.extra != b.extra {
+							return evals, pk.Failf("altered", "%s: Info differs from the fault-free call", opLabel)
+						}
+						continue
+					}
+					if len(g.sigs) != len(b.sigs) {
+						return evals, pk.Failf("error-as-eof", "%s: the source reported an I/O error from Seek, and this call ended with a clean end-of-file after %d of %d items", opLabel, len(g.sigs), len(b.sigs))
+					}
+					passed = true
+				}
+			}
+		}
+	}
+	return evals, nil
 }
 
 func TestC15(t *testing.T) {
